@@ -171,58 +171,47 @@ namespace occa {
         modeDevice->maxBytesAllocated, modeDevice->bytesAllocated
       );
 
-      /*Loop through the reservation list*/
-      auto it = reservations.begin();
-      modeMemory_t* m = *it;
-      dim_t lo = m->offset;    /*Start point of current block*/
-      dim_t hi = lo + m->size; /*End point of current block*/
-      dim_t offset = 0;
-      udim_t newReserved = 0;
-      setPtr(m, newBuffer, offset);
-      do {
-
-        it++;
-
-        if (it == reservations.end()) {
-          /*If this reservation is the last one, copy the block and we're done*/
-          memcpy(newBuffer, offset, buffer, lo, hi - lo);
-          newReserved += ((hi - lo + alignment - 1) / alignment) * alignment;
-        } else {
-          /*Look at next reservation*/
-          m = *it;
-          const dim_t mlo = m->offset;
-          const dim_t mhi = m->offset + m->size;
-          if (mlo > hi) {
-            /*
-            If the start point of the next reservation is in a new block
-            copy the last block to the new allocation
-            */
-            memcpy(newBuffer, offset, buffer, lo, hi - lo);
-            const udim_t reservationSize = ((hi - lo + alignment - 1) / alignment) * alignment;
-            newReserved += reservationSize;
-
-            /*Increment offset, and track start/end of current block*/
-            offset += reservationSize;
-            lo = mlo;
-            hi = mhi;
-          } else {
-            /*
-            Reservation is in the same block.
-            Extend end point of current block
-            */
-            hi = std::max(hi, mhi);
-          }
-          /*Update the buffer of this reservation*/
-          setPtr(m, newBuffer, m->offset - (lo - offset));
-        }
-      } while (it != reservations.end());
+      /*Migrate the reservations. Blocks move by multiples of alignment, so reserved is unchanged*/
+      migrate(newBuffer, alignment);
 
       /*Clean up old buffer*/
       delete buffer;
 
       buffer = newBuffer;
       size = alignedBytes;
-      reserved = newReserved;
+    }
+  }
+
+  void modeMemoryPool_t::migrate(modeBuffer_t* newBuffer, const udim_t align) {
+    /*
+    Move the reservations to newBuffer, packing the space in the process.
+    A block is a maximal run of reservations whose ranges, rounded out to
+    align, overlap or touch. Each block is moved as a whole, by a multiple
+    of align, so the packed size is the size of the union of the rounded
+    ranges
+    */
+    dim_t offset = 0; /*Start point of the current block in newBuffer*/
+    auto it = reservations.begin();
+    while (it != reservations.end()) {
+      /*Find the start and end point of the block starting at this reservation*/
+      const dim_t lo = ((*it)->offset / align) * align;
+      dim_t hi = lo;
+      auto blockEnd = it;
+      while (blockEnd != reservations.end()) {
+        modeMemory_t* m = *blockEnd;
+        const dim_t mlo = (m->offset / align) * align;
+        const dim_t mhi = ((m->offset + m->size + align - 1) / align) * align;
+        if (mlo > hi) break; /*Next reservation is in a new block*/
+        hi = std::max(hi, mhi);
+        ++blockEnd;
+      }
+
+      /*Copy the block, and update the buffer of its reservations*/
+      memcpy(newBuffer, offset, buffer, lo, std::min(hi, (dim_t) size) - lo);
+      for (; it != blockEnd; ++it) {
+        setPtr(*it, newBuffer, (*it)->offset - (lo - offset));
+      }
+      offset += hi - lo;
     }
   }
 
@@ -236,44 +225,11 @@ namespace occa {
     if (reservations.size() != 0) {
       /*
       There are currently reservations.
-      Figure out the size of the new buffer needed
+      Make a new buffer of the size they need with the new alignment
+      and migrate them, packing the space in the process
       */
-      /*Loop through the reservation list*/
-      auto it = reservations.begin();
-      modeMemory_t* m = *it;
-      dim_t lo = m->offset;    /*Start point of current block*/
-      dim_t hi = lo + m->size; /*End point of current block*/
-      udim_t newReserved = 0;
-      do {
-        it++;
-        if (it == reservations.end()) {
-          newReserved += ((hi - lo + newAlignment - 1) / newAlignment) * newAlignment;
-        } else {
-          /*Look at next reservation*/
-          m = *it;
-          const dim_t mlo = m->offset;
-          const dim_t mhi = m->offset + m->size;
-          if (mlo > hi) {
-            /*
-            If the start point of the next reservation is in a new block
-            */
-            const udim_t reservationSize = ((hi - lo + newAlignment - 1) / newAlignment) * newAlignment;
-            newReserved += reservationSize;
+      const udim_t newReserved = computeReserved(newAlignment);
 
-            /*Track start/end of current block*/
-            lo = mlo;
-            hi = mhi;
-          } else {
-            /*
-            Reservation is in the same block.
-            Extend end point of current block
-            */
-            hi = std::max(hi, mhi);
-          }
-        }
-      } while (it != reservations.end());
-
-      /*Make a new buffer*/
       modeBuffer_t* newBuffer = makeBuffer();
       newBuffer->malloc(newReserved);
 
@@ -282,48 +238,7 @@ namespace occa {
         modeDevice->maxBytesAllocated, modeDevice->bytesAllocated
       );
 
-      /*Loop through the reservation list and migrate to new alignment*/
-      it = reservations.begin();
-      m = *it;
-      lo = m->offset;    /*Start point of current block*/
-      hi = lo + m->size; /*End point of current block*/
-      dim_t offset = 0;
-      setPtr(m, newBuffer, offset);
-      do {
-
-        it++;
-
-        if (it == reservations.end()) {
-          /*If this reservation is the last one, copy the block and we're done*/
-          memcpy(newBuffer, offset, buffer, lo, hi - lo);
-        } else {
-          /*Look at next reservation*/
-          m = *it;
-          const dim_t mlo = m->offset;
-          const dim_t mhi = m->offset + m->size;
-          if (mlo > hi) {
-            /*
-            If the start point of the next reservation is in a new block
-            copy the last block to the new allocation
-            */
-            memcpy(newBuffer, offset, buffer, lo, hi - lo);
-            const udim_t reservationSize = ((hi - lo + newAlignment - 1) / newAlignment) * newAlignment;
-
-            /*Increment offset, and track start/end of current block*/
-            offset += reservationSize;
-            lo = mlo;
-            hi = mhi;
-          } else {
-            /*
-            Reservation is in the same block.
-            Extend end point of current block
-            */
-            hi = std::max(hi, mhi);
-          }
-          /*Update the buffer of this reservation*/
-          setPtr(m, newBuffer, m->offset - (lo - offset));
-        }
-      } while (it != reservations.end());
+      migrate(newBuffer, newAlignment);
 
       /*Clean up old buffer*/
       delete buffer;
@@ -331,8 +246,13 @@ namespace occa {
       buffer = newBuffer;
       size = newReserved;
       reserved = newReserved;
-    }
 
-    alignment = newAlignment;
+      alignment = newAlignment;
+    } else {
+      alignment = newAlignment;
+
+      /*Keep the pool size a multiple of the alignment*/
+      if (size % alignment) reallocate(size);
+    }
   }
 }
